@@ -8,7 +8,7 @@
    that a unified diff with three lines of context gives one hunk per region, so the regions are independently
    selectable hunks.  A pending change set D is a set of ATOMS [f, k]:
 
-       a: modA modB   edit region A / B                 ren    move into d/ (d/a)
+       a: modA modB   edit region A / B                 ren    move into d/ under a new name (d/ar)
           del         brz rm (unversioned and gone)     miss   file deleted on disk, still versioned
           unver       brz rm --keep (unversioned, file stays; may be combined with modA: the kept file is edited)
           kind        file replaced by a symlink        exec   chmod +x
@@ -53,6 +53,7 @@ Kept(D, S) == D \ Shelved(D, S)
 
 (* ---- the abstract tree: one record per file *)
 Dash == "-"
+Moved(f) == "d/" \o f \o "r"                \* a rename changes the parent directory and the name
 Absent(f) == [ver |-> FALSE, disk |-> FALSE, path |-> f, kind |-> Dash, ra |-> Dash, rb |-> Dash, tgt |-> Dash, exec |-> FALSE]
 St(f, ks) ==
     IF f = "n" THEN
@@ -63,8 +64,8 @@ St(f, ks) ==
              disk == ks \cap {"del", "miss"} = {}
              kind == IF "kind" \in ks THEN (IF f = "l" THEN "file" ELSE "symlink")
                      ELSE (IF f = "l" THEN "symlink" ELSE "file")
-         IN IF ~disk THEN [Absent(f) EXCEPT !.ver = ver, !.path = IF ver /\ "ren" \in ks THEN "d/" \o f ELSE f]
-            ELSE [ver |-> ver, disk |-> TRUE, path |-> IF "ren" \in ks THEN "d/" \o f ELSE f, kind |-> kind,
+         IN IF ~disk THEN [Absent(f) EXCEPT !.ver = ver, !.path = IF ver /\ "ren" \in ks THEN Moved(f) ELSE f]
+            ELSE [ver |-> ver, disk |-> TRUE, path |-> IF "ren" \in ks THEN Moved(f) ELSE f, kind |-> kind,
                   ra |-> IF kind # "file" THEN Dash ELSE IF f = "l" \/ "modA" \in ks THEN "L" ELSE "0",
                   rb |-> IF kind # "file" THEN Dash ELSE IF "modB" \in ks THEN "L" ELSE "0",
                   tgt |-> IF kind # "symlink" THEN Dash ELSE IF f # "l" THEN "k1" ELSE IF "tgt" \in ks THEN "t1" ELSE "t0",
